@@ -185,6 +185,11 @@ def run_check(prop, tier, seed, replay=None):
             # the property file fails because a file it depends on failed in the build: name that file and its error
             err = 'the build of %s failed: %s' % (', '.join(status.make_failed_files[:3]), _first_error(status.log) or err)
         broken.append('proof: coq/Properties/%s.v no longer checks: %s' % (prop, err))
+    if tier == 'thorough' and thm['ok'] and os.environ.get('VERIF_NO_COQCHK') != '1':
+        chk = build.coqchk(prop)
+        ctx.extra['coqchk'] = {'ok': chk['ok'], 'axioms': chk['axioms'], 'unsafe': chk['unsafe'], 'wall_s': chk['wall'], 'summary': chk['summary']}
+        if not chk['ok']:
+            broken.append('proof: coqchk does not accept BSE.Properties.%s (rc %s): %s' % (prop, chk['rc'], chk['summary'][-300:]))
     if not status.model_ok:
         broken.append('model: the executable model could not be built/extracted: %s' %
                       (_first_error(status.log) or 'see coq/build.log'))
